@@ -67,17 +67,14 @@ theorem chk_sim (o : Oracle) (a : Args) (m : Mode) (e : Env) (ck : Chk) (p : APt
     apply rel_ifErr rel ok.mono
     intro hb
     exact checkZeroFuncArgs_deriv a m _ c hb h
-  | derivArg =>
-    have ok := checkDerivArg_ok o c
-    exact ⟨covers_chk rel ok (fun _ => rel.mono ok.mono), ok.mono⟩
-  | bessel =>
-    have ok := checkBesselArgs_ok o a m c
+  | bessel flag =>
+    have ok := checkBesselArgs_ok a m flag c
     refine ⟨covers_chk rel ok (fun h => ?_), ok.mono⟩
     show Rel (if (m.derivs && !a.const 0) = true then p.setErr else p) _
     apply rel_ifErr rel ok.mono
     intro hb
     rw [Bool.and_eq_true] at hb
-    exact checkBesselArgs_deriv o a m c h hb.1 (by simpa using hb.2)
+    exact checkBesselArgs_deriv a m flag c h hb.1 (by simpa using hb.2)
   | coupling =>
     have ok := checkCouplingFrom_ok a m a.n 0 c
     refine ⟨covers_chk rel ok (fun h => ?_), ok.mono⟩
